@@ -205,6 +205,8 @@ def gen_case(rng, variant, stream="main"):
         for s in specs:
             if s.crit:
                 s.fk = "c%d" % s.uid
+    if variant == "GP" and stream == "main" and rng.random() < 0.3:
+        inject_alias_pair(rng, specs, inst, orders)
     near = False
     if variant == "GP" and stream == "main" and highs and rng.random() < 0.4:
         near = inject_near_equal(rng, specs, opts)
@@ -216,6 +218,51 @@ def gen_case(rng, variant, stream="main"):
                 s.nom = [seen[s.fk] * rng.choice([10.0, 0.1])]
             seen.setdefault(s.fk, s.nom[0])
     return dict(variant=variant, keep=keep, highs=highs, inst=inst, n=n, specs=specs, opts=opts, near=near)
+
+
+def inject_alias_pair(rng, specs, inst, orders):
+    """StateGoals: one on the state x, at a later priority one on its negated alias nx = -x (function
+    keys "x" and "-x": separate store entries), and at a still later priority a goal pushing x
+    against the first goal's retained bound"""
+    used = {int(s.prio) for s in specs}
+    free = [p for p in range(-4, 14) if p not in used]
+    pa, pb, pc = sorted(rng.sample(free, 3))
+    uid = max(s.uid for s in specs) + 1
+    a = float(rng.randint(-6, 6))
+    gap = rng.choice([1.0, 2.0, 4.0])
+    o = lambda: rng.choice(orders)  # noqa
+    if rng.random() < 0.5:
+        # x >= a ; nx <= -a + gap (i.e. x >= a - gap: implied) ; minimise x
+        ga = S.state_goal_spec("x", inst, tmin=("s", a), prio=pa, order=o(), uid=uid)
+        gb = S.state_goal_spec("nx", inst, tmax=("s", -a + gap), prio=pb, order=o(), uid=uid + 1)
+        gc = GoalSpec(terms=[("x", 1.0)], fk="g%d" % (uid + 2), prio=pc, order=1, uid=uid + 2)
+    else:
+        # x <= a ; nx >= -a - gap (i.e. x <= a + gap: implied) ; minimise -x
+        ga = S.state_goal_spec("x", inst, tmax=("s", a), prio=pa, order=o(), uid=uid)
+        gb = S.state_goal_spec("nx", inst, tmin=("s", -a - gap), prio=pb, order=o(), uid=uid + 1)
+        gc = GoalSpec(terms=[("x", -1.0)], fk="g%d" % (uid + 2), prio=pc, order=1, uid=uid + 2)
+    if rng.random() < 0.3:  # also: a StateGoal on a plain state
+        specs.append(S.state_goal_spec("u", inst, tmax=("s", float(rng.randint(0, 8))), prio=rng.choice([pa, pb, pc]),
+                                       order=o(), uid=uid + 3))
+    specs.extend([ga, gb, gc])
+
+
+def check_state_goal_keys(c, pr, desc):
+    """StateGoal.__init__: function key / range / nominal against the model's rule"""
+    sg = [g for g in pr._goal_objs if g.spec.state is not None]
+    if not sg:
+        return
+    lines = [dict(op="statekey", canonical=S.ALIASES[g.spec.state][0], positive=S.ALIASES[g.spec.state][1] > 0) for g in sg]
+    outs = c.model(lines)
+    for k, g in enumerate(sg):
+        c.count(("statekey", g.spec.state))
+        c.hit("stategoal/" + g.spec.state)
+        rng_real = tuple(float(x) for x in g.function_range)
+        if outs is not None and (outs[k] != g.function_key or outs[k] != g.spec.fk):
+            c.disagree("function key of a StateGoal", dict(desc, state=g.spec.state), outs[k], g.function_key)
+        if rng_real != (g.spec.lo[0], g.spec.hi[0]) or float(g.function_nominal) != g.spec.nom[0]:
+            c.disagree("function range / nominal of a StateGoal", dict(desc, state=g.spec.state),
+                       [g.spec.lo[0], g.spec.hi[0], g.spec.nom[0]], [rng_real, float(g.function_nominal)])
 
 
 def inject_near_equal(rng, specs, opts):
@@ -285,6 +332,7 @@ def stream_main(c, N, variants=("GP", "GP", "GP", "GPkeep", "SP", "SP2"), stream
         desc = dict(stream=stream, variant=variant, solver="highs" if case["highs"] else "ipopt", n=n, opts=opts, inst=inst,
                     goals=[s.describe() for s in specs])
         c.programs += 1
+        check_state_goal_keys(c, pr, desc)
         if case["near"]:
             c.hit("main/near-equal-targets")
         if r[0] == "raise" and case["near"] and "Ill-posed" in str(r[1]):
